@@ -2,7 +2,7 @@
 from lib import core, gen
 
 LEVEL = 'proof'
-BBH_FEATURES = ['cps', 'reason', 'segment', 'prover', 'macro', 'oracle']      # harness command families this check needs (fallback build, lib/core.py build_bbh)
+BBH_FEATURES = ['cps', 'reason', 'segment', 'prover', 'macro', 'oracle', 'py']      # harness command families this check needs (fallback build, lib/core.py build_bbh)
 
 # decider families: (command template with {prog} {lim}, limit answers, limits)
 FAMILIES = {
@@ -13,9 +13,9 @@ FAMILIES = {
     'quick': ('quick|{prog}|{lim}', None, [0, 1, 2, 3, 5, 9, 17, 50, 300, 2000]),
 }
 OPTIONAL = {
-    'cps_halt': ('cps|halt|{prog}|{lim}', {'0'}, [2, 3, 4, 5, 6, 7, 8, 9]),
-    'cps_blank': ('cps|blank|{prog}|{lim}', {'0'}, [2, 3, 4, 5, 6, 7, 8, 9]),
-    'cps_spin': ('cps|spin|{prog}|{lim}', {'0'}, [2, 3, 4, 5, 6, 7, 8, 9]),
+    'cps_halt': ('cps|halt|{prog}|{lim}', {'0'}, [2, 3, 4, 5, 6, 7, 8, 9, 10, 11, 12]),
+    'cps_blank': ('cps|blank|{prog}|{lim}', {'0'}, [2, 3, 4, 5, 6, 7, 8, 9, 10, 11, 12]),
+    'cps_spin': ('cps|spin|{prog}|{lim}', {'0'}, [2, 3, 4, 5, 6, 7, 8, 9, 10, 11, 12]),
     'seg_halt': ('segpy|halt|{prog}|{lim}', {'segment_limit', 'depth_limit'}, [2, 3, 4, 5, 6, 7, 8]),
     'seg_blank': ('segpy|blank|{prog}|{lim}', {'segment_limit', 'depth_limit'}, [2, 3, 4, 5, 6, 7, 8]),
     'seg_spin': ('segpy|spin|{prog}|{lim}', {'segment_limit', 'depth_limit'}, [2, 3, 4, 5, 6, 7, 8]),
@@ -46,15 +46,21 @@ def run(rep, tier, seed):
     progs = gen.corpus_2x2()[:: (3 if tier == 'quick' else 1)]
     progs += gen.random_progs(rng, 2500 if tier == 'quick' else 40000)
     progs += gen.named_machines()[:: (4 if tier == 'quick' else 1)]
+    # leaves of the real tree generator (3x2..2x4): the deciders' everyday inputs; here the per-window answers of CPS are
+    # NOT monotone in the window size (added after seeded change C15-m2, which skipped the small windows)
+    nleaf0 = len(progs)
+    progs += gen.tree_leaves(rng, 1500 if tier == 'quick' else 12000)
     cs = []
     for i, p in enumerate(progs):
         names = sorted(fams)
         chosen = names if tier != 'quick' else rng.sample(names, 3)
+        if i >= nleaf0 and tier == 'quick':
+            chosen = [f for f in names if f.startswith(('cps', 'seg'))]
         for f in chosen:
             tmpl, _, lims = fams[f]
             if f == 'rec' and not p.startswith('1RB'):
                 continue
-            sel = lims if tier != 'quick' else sorted(rng.sample(lims, min(4, len(lims))))
+            sel = lims if (tier != 'quick' or i >= nleaf0) else sorted(rng.sample(lims, min(4, len(lims))))
             for l in sel:
                 cs.append((f'{f}:{i}:{l}', tmpl.format(prog=p, lim=l)))
     lines = [f'{i}|{l}' for i, l in cs]
